@@ -64,8 +64,8 @@ def run(scn, seed):
             # the application closes the server itself, twice
             sched.park(("app-close",))
             try:
-                srv.close()
-                srv.close()
+                for _ in range(scn.get("closes", 2)):
+                    srv.close()
             except BaseException as e:
                 if isinstance(e, (shim.Abort, shim.ProcessExit)):
                     raise
@@ -73,7 +73,7 @@ def run(scn, seed):
         sched.spawn("M", main)
         sched.spawn("P", proxy)
         if scn.get("app_close"):
-            sched.run(until=lambda: "R" in sched.threads)
+            sched.run(until=lambda: "R" in sched.threads and len(sched.chunks) >= scn.get("app_after", 0))
             sched.spawn("A", app)
         status = sched.run()
         ev = [(t, ch["tid"]) + e for t, ch in enumerate(sched.chunks) for e in ch["events"]]
